@@ -20,8 +20,27 @@ import opsdrive
 from opsdrive import dec, enc, nested, to_float_array, interior, SIDES
 
 
-def gen_solve_config(rng, cls, nmax=3, conv=None, kinds=None, allow_periodic=True):
-    cfg = opsdrive.gen_config(rng, cls, nmax=nmax, kinds=kinds, allow_periodic=allow_periodic)
+def periodic_systematic(seed=0):
+    """solver problems on the periodic family (every periodic-capable axis x flag on the low / high / both sides x
+    other axes with pairwise different end-cell ratios)"""
+    import random as _r
+    out = []
+    for base in opsdrive.periodic_systematic_configs(False, seed):
+        cls = base["cls"]
+        pa = [a for a in range(drive.dim(cls)) if any(base["bc"][s]["periodic"] for s in SIDES[a])]
+        lo, hi = SIDES[pa[0]]
+        flag = "both" if base["bc"][lo]["periodic"] and base["bc"][hi]["periodic"] else \
+            ("lo" if base["bc"][lo]["periodic"] else "hi")
+        rng = _r.Random(hash((seed, cls, pa[0], flag, "solve")) & 0xffffffff)
+        cfg = gen_solve_config(rng, cls, faces_override=[[dec(q) for q in f] for f in base["faces"]],
+                               force_periodic=set(pa), periodic_flag=flag)
+        cfg["systematic"] = "periodic"
+        out.append(cfg)
+    return out
+
+
+def gen_solve_config(rng, cls, nmax=3, conv=None, kinds=None, allow_periodic=True, **kw):
+    cfg = opsdrive.gen_config(rng, cls, nmax=nmax, kinds=kinds, allow_periodic=allow_periodic, **kw)
     dims = opsdrive.dims_of(cfg)
     d = len(dims)
     full = [n + 2 for n in dims]
